@@ -21,7 +21,8 @@ RULE = (
     "callback and records the calls in flight. Engine DET (vlib/det.py) runs the real code with line-level yield points "
     "('full': every reactivex line; 'focus': the operator's own files + autodetachobserver.py + internal/concurrency.py "
     "+ every lock operation + probe yields). enum-k1: every schedule with <=1 preemption for all 2-source programs over "
-    "{C,E,NC,NE,NNC} per operator form (focus) and over {NC,NE} (full); thorough: <=2 preemptions; gen: generated programs "
+    "{C,NC,NE,NNC} per operator form (focus) and over {NC,NE} (full); enum-k2: every schedule with <=2 preemptions "
+    "(focus) for zip/combine_latest/with_latest_from/amb on NNC|NNC and NNE|NNC (thorough: all forms over {NC,NE,NNC,NNE}); gen: generated programs "
     "with a drawn descent of <=3 effective preemptions, every prefix schedule judged too. Oracle, every run, every probe: "
     "no callback starts while a callback of ANOTHER thread is in flight on the same probe (same-thread re-entrancy is not "
     "counted); the calls in entry order match N*(E|C)?; no deadlock; no escaped exception. Nothing is demanded about "
@@ -247,50 +248,90 @@ def _case(op, srcs, sched, focus, **extra):
     return d
 
 
-_TIMED = ["NSNC", "SNC", "NSC", "NsNsNC", "SNSNE", "NNSNC", "sNsNSC", "SSC", "NSE"]
+_TIMED = ["NSNC", "SNC", "NsNC", "NSE", "NSC", "NsNsNC", "SNSNE", "NNSNC", "sNsNSC", "SSC"]
+_PLAIN = tuple(f for f in FORMS if f not in MERGE_ALL_FAMILY + WINDOW_FAMILY)
+_TRIPLES = [["NC", "NC", "NE"], ["NC", "E", "NC"], ["NNC", "NC", "C"]]
+_OUTERS = (("IIE", 2), ("IIC", 0), ("IIC", 2), ("IIE", 1))
 
 
-def _programs(alpha, forms=FORMS, timed=_TIMED):
-    """(op, srcs, extra) for every operator form: all 2-source programs over `alpha`, a few 3-source ones."""
-    pairs = [list(p) for p in itertools.product(alpha, repeat=2)]
-    triples = [["NC", "NC", "NE"], ["NC", "E", "NC"], ["NNC", "NC", "C"]]
+def _pairs(alpha):
+    return [list(p) for p in itertools.product(alpha, repeat=2)]
+
+
+def _plain(alpha, triples=True):
+    for op in _PLAIN:
+        for srcs in _pairs(alpha):
+            yield op, srcs, {}
+        if triples and op != "amb":
+            for srcs in _TRIPLES:
+                yield op, srcs, {}
+
+
+def _nested(alpha, forms=MERGE_ALL_FAMILY, outers=_OUTERS, ns=(1, 2)):
     for op in forms:
-        if op in WINDOW_FAMILY:
-            for prog in timed:
-                if op == "window_time":
-                    for shift in (None, 0.5):
-                        yield op, [prog], {"shift": shift}
+        for srcs in _pairs(alpha):
+            for outer, pre in outers:
+                if op == "merge_max":
+                    for n in ns:
+                        yield op, srcs, {"outer": outer, "pre": pre, "n": n}
                 else:
-                    for n in (1, 2):
-                        yield op, [prog], {"n": n}
-        elif op in MERGE_ALL_FAMILY:
-            for srcs in pairs:
-                for outer, pre in (("IIC", 2), ("IIE", 2), ("IIC", 0), ("IIE", 1)):
-                    if op == "merge_max":
-                        for n in (1, 2):
-                            yield op, srcs, {"outer": outer, "pre": pre, "n": n}
-                    else:
-                        yield op, srcs, {"outer": outer, "pre": pre}
-        elif op == "amb":
-            for srcs in pairs:
-                yield op, srcs, {}
-        else:
-            for srcs in pairs:
-                yield op, srcs, {}
-            for srcs in triples:
-                yield op, srcs, {}
+                    yield op, srcs, {"outer": outer, "pre": pre}
+
+
+def _windows(timed, shifts=(None, 0.5), ns=(1, 2)):
+    for prog in timed:
+        for shift in shifts:
+            yield "window_time", [prog], {"shift": shift}
+        for n in ns:
+            yield "window_time_count", [prog], {"n": n}
 
 
 def _enum_k1(tier):
-    K = 1 if tier == "quick" else 2
-    for op, srcs, extra in _programs(["C", "E", "NC", "NE", "NNC"]):
-        yield _case(op, srcs, conc.sched_all(K), True, **extra)
-    for op, srcs, extra in _programs(["NC", "NE"], timed=_TIMED[:4]):
-        yield _case(op, srcs, conc.sched_all(1), False, **extra)
-    if tier == "thorough":
-        for op, srcs, extra in _programs(["NC", "NE"], timed=_TIMED[:2]):
-            for i in range(8):
-                yield _case(op, srcs, conc.sched_all(2, [i, 8]), False, **extra)
+    """(trace focus?, K, programs).  quick stays within ~150 CPU-seconds; thorough uses the full alphabets and K=2."""
+    A5, A4, A3, A2 = ["C", "E", "NC", "NE", "NNC"], ["C", "NC", "NE", "NNC"], ["C", "NC", "NE"], ["NC", "NE"]
+    if tier == "quick":
+        plan = [
+            (True, 1, _plain(A4)),
+            (True, 1, _nested(A3, forms=("merge_all", "merge_max"), outers=_OUTERS[:2])),
+            (True, 1, _nested(A2, forms=("flat_map",), outers=_OUTERS[:2])),
+            (True, 1, _windows(_TIMED[:4], ns=(2,))),
+            (False, 1, _plain(A2, triples=False)),
+            (False, 1, _nested(A2, outers=_OUTERS[:1], ns=(1,))),
+            (False, 1, _windows(_TIMED[:1], shifts=(None,), ns=(2,))),
+        ]
+    else:
+        plan = [
+            (True, 1, _plain(A5)),
+            (True, 1, _nested(A5)),
+            (True, 1, _windows(_TIMED)),
+            (True, 2, _windows(_TIMED[:3], ns=(2,))),
+            (False, 1, _plain(A4)),
+            (False, 1, _nested(A3)),
+            (False, 1, _windows(_TIMED[:5])),
+        ]
+    for focus, K, progs in plan:
+        for op, srcs, extra in progs:
+            if K >= 2 and not focus or K >= 2 and op in WINDOW_FAMILY:
+                for i in range(8):
+                    yield _case(op, srcs, conc.sched_all(K, [i, 8]), focus, **extra)
+            else:
+                yield _case(op, srcs, conc.sched_all(K), focus, **extra)
+
+
+def _enum_k2(tier):
+    """Two preemptions (focus trace): needed where a downstream call only happens once BOTH sources have emitted
+    (zip, combine_latest, with_latest_from) or where the first racing step is a decision (amb): with one preemption the
+    preempting thread always runs to its end, so the two sources are never both in the middle of an emission."""
+    if tier == "quick":
+        progs = [(op, srcs, {}) for op in ("zip", "combine_latest", "with_latest_from", "amb") for srcs in (["NNC", "NNC"], ["NNE", "NNC"])]
+        m = 4
+    else:
+        progs = list(_plain(["NC", "NE", "NNC", "NNE"]))
+        progs += list(_nested(["NC", "NE"], outers=_OUTERS[:2], ns=(1,)))
+        m = 8
+    for op, srcs, extra in progs:
+        for i in range(m):
+            yield _case(op, srcs, conc.sched_all(2, [i, m]), True, **extra)
 
 
 _untimed = st.builds(lambda n, t: "N" * n + t, st.integers(0, 3), st.sampled_from("CE"))
@@ -331,5 +372,6 @@ _gen = st.sampled_from(FORMS).flatmap(_gen_for)
 def checks(tier):
     return [
         Check("enum-k1", run, cases=_enum_k1, shards={"quick": 8, "thorough": 16}, exhaustive=True),
-        Check("gen", run, strategy=_gen, examples={"quick": 640, "thorough": 16 * 6000}, shards={"quick": 8, "thorough": 16}),
+        Check("enum-k2", run, cases=_enum_k2, shards={"quick": 8, "thorough": 16}, exhaustive=True),
+        Check("gen", run, strategy=_gen, examples={"quick": 400, "thorough": 16 * 6000}, shards={"quick": 8, "thorough": 16}),
     ]
